@@ -1397,16 +1397,20 @@ func (f *Framer) WriteRawFrame(t FrameType, flags Flags, streamID uint32, payloa
 	return f.endWrite()
 }
 
+// errShortPayload reports a complete frame whose payload is too short for
+// its mandatory fields: a frame size error (RFC 7540 section 4.2).
+var errShortPayload = connError{ErrCodeFrameSize, "frame payload too short for its fields"}
+
 func readByte(p []byte) (remain []byte, b byte, err error) {
 	if len(p) == 0 {
-		return nil, 0, io.ErrUnexpectedEOF
+		return nil, 0, errShortPayload
 	}
 	return p[1:], p[0], nil
 }
 
 func readUint32(p []byte) (remain []byte, v uint32, err error) {
 	if len(p) < 4 {
-		return nil, 0, io.ErrUnexpectedEOF
+		return nil, 0, errShortPayload
 	}
 	return p[4:], binary.BigEndian.Uint32(p[:4]), nil
 }
